@@ -60,12 +60,37 @@ LIBEXIT = 'taskreport refused "out:put" {\n  formats csv\n  columns id\n}\n'   #
 SLOW = ('project p "P" 2024-01-01 +3y {\n  timezone "UTC"\n}\n' + "".join('resource r%d "R" {}\n' % i for i in range(20))
         + "".join('task t%d "T" { effort 100d allocate r%d }\n' % (i, i % 20) for i in range(120)))
 FSIZE_LIMIT = 65536
+# 400 one-line milestones: about 12 kB of input, about 40 kB of JSON / 20 kB of CSV
+WIDE = ('project p "P" 2024-01-01 +2w {\n  timezone "UTC"\n}\n' + "".join('task m%03d "M" { start 2024-01-0%d }\n' % (i, 2 + i % 7) for i in range(400)))
+_FSIZE_OUT = {}
+
+
+def fsize_out_limit(scr):
+    """A file size limit that lets every temporary file be written but not the final --output file: the JSON report in the temp
+    directory carries the random report id (26 characters), the final one the SHA-256 (64): measured once without a limit."""
+    if scr not in _FSIZE_OUT:
+        wd = tempfile.mkdtemp(prefix="spcal_")
+        try:
+            src = os.path.join(wd, "in.tjp")
+            with open(src, "w") as f:
+                f.write(WIDE)
+            out = os.path.join(wd, "out.json")
+            p = subprocess.run([PY, "-m", "scriptplan.cli.plan", "report", "--output", out, src], cwd=wd, env=env_for(scr, hooks=False, extra={"TMPDIR": wd}),
+                               stdout=subprocess.PIPE, stderr=subprocess.PIPE, timeout=300)
+            if p.returncode != 0 or not os.path.exists(out):
+                raise MachineryError("calibration run for the output size failed: " + p.stderr.decode(errors="replace")[-300:])
+            _FSIZE_OUT[scr] = os.path.getsize(out) - 20
+        finally:
+            shutil.rmtree(wd, ignore_errors=True)
+    return _FSIZE_OUT[scr]
 
 
 def text_for(sit):
     """The input of a situation: str, or bytes for input that is not valid UTF-8, or None (no file)."""
-    if sit.get("fault") == "sigint":
+    if sit.get("fault") in ("sigint", "sigterm", "sighup"):
         return SLOW.replace("task t0 ", "tsak t0 ") if sit["input"] == "syntax" else SLOW
+    if sit.get("fault") == "fsizeout":     # a small input whose report is larger than the file size limit
+        return WIDE
     if sit.get("fault") == "fsize":        # larger than the file size limit the process runs under
         return text_for({k: v for k, v in sit.items() if k != "fault"}) + "# padding\n" * (3 * FSIZE_LIMIT // 10)
     i = sit["input"]
@@ -137,17 +162,19 @@ def as_bytes(text):
     return text if isinstance(text, bytes) else (text or "").encode()
 
 
-def fault_kwargs(sit):
-    if sit.get("fault") == "fsize":
+def fault_kwargs(sit, scr=None):
+    if sit.get("fault") in ("fsize", "fsizeout"):
         import resource
-        return {"preexec_fn": lambda: resource.setrlimit(resource.RLIMIT_FSIZE, (FSIZE_LIMIT, FSIZE_LIMIT))}
+        lim = FSIZE_LIMIT if sit["fault"] == "fsize" else fsize_out_limit(scr)
+        return {"preexec_fn": lambda: resource.setrlimit(resource.RLIMIT_FSIZE, (lim, lim))}
     return {}
 
 
-def interrupt_when_running(p, tmpd, own_only=True, limit=60.0):
-    """SIGINT once the run is under way: its plan_auto_* copy exists (solitary TMPDIR), plus a moment to get into the engine."""
+def interrupt_when_running(p, tmpd, own_only=True, limit=60.0, sig="sigint"):
+    """A signal once the run is under way: its plan_auto_* copy exists (solitary TMPDIR), plus a moment to get into the engine."""
     import signal
     import threading
+    signum = {"sigint": signal.SIGINT, "sigterm": signal.SIGTERM, "sighup": signal.SIGHUP}[sig]
 
     def watch():
         end = time.time() + limit
@@ -159,7 +186,7 @@ def interrupt_when_running(p, tmpd, own_only=True, limit=60.0):
             if any(n.startswith("plan_auto_") or n.startswith("plan_output_") for n in names):
                 time.sleep(0.4)
                 if p.poll() is None:
-                    p.send_signal(signal.SIGINT)
+                    p.send_signal(signum)
                 return
             time.sleep(0.01)
     th = threading.Thread(target=watch, daemon=True)
@@ -523,12 +550,14 @@ def concurrent_round(scr, sits, same_text=True, with_strace=False):
         before = listing(cwd)
         pre = {os.path.join(cwd, x) for x in before} | {cwd, tmpd}
         procs = []
+        outfiles = []
         env = env_for(scr, hooks=False, extra={"TMPDIR": tmpd})
         for i, s in enumerate(sits):
             args = [PY, "-m", "scriptplan.cli.plan", "report"]
             if s["format"] == "csv":
                 args.append("--csv")
             data = None
+            of = None
             if s.get("out", "stdout") not in ("stdout", "brokenpipe", "stderrfull"):
                 of = os.path.join(outs, "result%d.%s" % (i, s["format"])) if s["out"] != "baddir" else os.path.join(outs, "no", "such%d" % i, "result")
                 args += ["--output", of] + (["--force"] if s["out"] == "force" else [])
@@ -548,10 +577,11 @@ def concurrent_round(scr, sits, same_text=True, with_strace=False):
                 p = subprocess.Popen(args, cwd=cwd, env=env, stdin=subprocess.PIPE, stdout=w, stderr=subprocess.PIPE)
                 os.close(w)
             else:
-                p = subprocess.Popen(args, cwd=cwd, env=env, stdin=subprocess.PIPE, stdout=subprocess.PIPE, stderr=subprocess.PIPE, **fault_kwargs(s))
-            if s.get("fault") == "sigint":
-                interrupt_when_running(p, tmpd)
+                p = subprocess.Popen(args, cwd=cwd, env=env, stdin=subprocess.PIPE, stdout=subprocess.PIPE, stderr=subprocess.PIPE, **fault_kwargs(s, scr))
+            if s.get("fault") in ("sigint", "sigterm", "sighup"):
+                interrupt_when_running(p, tmpd, sig=s["fault"])
             procs.append((p, data))
+            outfiles.append(of)
         # feed stdin and collect concurrently
         import threading
         res = [None] * len(procs)
@@ -571,6 +601,10 @@ def concurrent_round(scr, sits, same_text=True, with_strace=False):
             t.join()
         after_cwd = [x for x in listing(cwd) if x not in before]
         after_tmp = listing(tmpd)
+        for i, of in enumerate(outfiles):
+            if of is not None and res[i] is not None:
+                res[i]["outfile"] = open(of, "rb").read() if os.path.exists(of) else None
+                res[i]["outdir_listing"] = listing(os.path.dirname(of)) if os.path.isdir(os.path.dirname(of)) else []
         fs = None
         if with_strace:
             names = {}
@@ -620,7 +654,7 @@ def check_c20(prop, tier, replay=None):
         run.add_tlc(fres0)
         ok_exits = {}
         for t in fterms:
-            k = json.dumps({a: b for a, b in t["sit"].items() if a != "out"}, sort_keys=True)
+            k = json.dumps({a: b for a, b in t["sit"].items() if a != "out" or t["sit"].get("fault") == "fsizeout"}, sort_keys=True)
             ok_exits.setdefault(k, set()).update(t["okExits"])
         for k in sorted(ok_exits):
             s = json.loads(k)
@@ -636,6 +670,13 @@ def check_c20(prop, tier, replay=None):
                     probs.append("exit status %d, the specification allows %s" % (r[0]["exit"], sorted(ok_exits[k])))
                 if r[0]["exit"] != 0 and r[0]["stdout"].strip():
                     probs.append("a failed run wrote to stdout")
+                if s.get("fault") == "fsizeout" and r[0]["exit"] != 0:
+                    # a failed write of the --output file: no truncated report, nothing else next to it
+                    if r[0].get("outfile") not in (None, b"PRE-EXISTING\n"):
+                        probs.append("a truncated --output file stays behind (%d bytes)" % len(r[0]["outfile"]))
+                    extra = [x for x in r[0].get("outdir_listing", []) if not x.startswith("result")]
+                    if extra:
+                        probs.append("left next to the --output file: %s" % extra[:3])
                 if probs:
                     run.violation("fault-%s-%s-%s" % (s["fault"], s["input"], s["channel"]), {"situation": s},
                                   {"why": "an outside fault (interrupt / temporary copy cannot be written) is not survived cleanly", "problems": probs,
